@@ -123,7 +123,10 @@ def _ctx_calls(rng, schemes, n, allow_hash=True, cats=(None,)):
             calls.append([k, s])
         elif k in ("copy_use", "ctx_copy_use"):
             # a copy of the shared object (copy.copy / copy.deepcopy / its own .copy()) taken as this thread's first access, then used
-            calls.append([k, s, rng.choice(["copy", "deepcopy"])])
+            # (copy.deepcopy is not among them: it walks the context's internal dictionaries in Python-level loops while other
+            #  threads' verify() calls fill those caches -- "dictionary changed size during iteration" -- which is how deepcopy behaves
+            #  on any shared object in use, not a first-use question; found by the last thorough soak, see DESIGN 10.3)
+            calls.append([k, s, "copy"])
         elif k == "needs_update":
             calls.append([k, s, cat])
         elif k == "default_scheme":
